@@ -1184,8 +1184,11 @@ impl Gen<'_> {
                 }
                 28..=47 => match self.live_slot() {
                     Some(s) => {
-                        let l = self.pad(s, false);
-                        format!("put {s} {} {} {l}", self.rng.below(40), self.rng.below(1 << 20))
+                        // a few entries of more than half a page give two-level trees with
+                        // single-entry leaves, where removals alone reshape the tree
+                        let big = self.rng.chance(1, 4);
+                        let l = self.pad(s, big);
+                        format!("put {s} {} {} {l}", self.rng.below(if big { 8 } else { 40 }), self.rng.below(1 << 20))
                     }
                     None => continue,
                 },
@@ -1199,7 +1202,7 @@ impl Gen<'_> {
                     None => continue,
                 },
                 52..=57 => match self.live_slot() {
-                    Some(s) => format!("del {s} {}", self.rng.below(40)),
+                    Some(s) => format!("del {s} {}", if self.rng.chance(1, 2) { self.rng.below(8) } else { self.rng.below(40) }),
                     None => continue,
                 },
                 58..=60 => match self.live_slot() {
@@ -1424,6 +1427,34 @@ fn systematic(out: &mut Out) {
             let ok = run_program(&prog, out);
             out.end_case(ok);
             out.count("systematic_programs");
+        }
+    }
+    // handles that only remove: a committed table (or multimap) of a few entries of more than half a
+    // page each - a branch over single-entry leaves -, then a transaction whose handle removes some
+    // of them and is dropped, the table opened again in the same transaction, commit, read back.
+    // Every subset of three entries is removed, so every reshaping of the small tree occurs
+    // (collapse onto an untouched leaf, onto the middle one, down to nothing)
+    for skind in ["normal", "multimap"] {
+        for mask in 1u32..8 {
+            for pad in [2600u64, 1400] {
+                let mut prog = vec!["new 4096 0 1048576".to_string(), "begin".into(), format!("open 0 a {skind} u64 bytes")];
+                for k in 0..3 {
+                    prog.push(format!("put 0 {k} {} {pad}", 100 + k));
+                }
+                prog.extend(["drop 0".to_string(), "commit".into(), "begin".into(), format!("open 0 a {skind} u64 bytes")]);
+                for k in 0..3 {
+                    if mask & (1 << k) != 0 {
+                        prog.push(format!("del 0 {k}"));
+                    }
+                }
+                prog.extend(["drop 0".to_string(), format!("open 0 a {skind} u64 bytes"), "len 0".into(), "drop 0".into(), "commit".into()]);
+                prog.push(format!("ropen a {skind} u64 bytes"));
+                prog.extend(["reopen".to_string(), format!("ropen a {skind} u64 bytes")]);
+                out.begin_case(&format!("remove-only handle {skind} mask={mask} pad={pad}"));
+                let ok = run_program(&prog, out);
+                out.end_case(ok);
+                out.count("systematic_programs");
+            }
         }
     }
     // legacy spellings: every legacy pair x every requested pair
